@@ -30,6 +30,7 @@ def handle (line : String) : String :=
   else if l.startsWith "verdict " then handleVerdict l
   else if l.startsWith "suite " then handleSuite l
   else if l.startsWith "isolation " then handleIsolation l
+  else if l.startsWith "crash " then handleCrash l
   else if l.startsWith "luaapi " then handleLuaApi l
   else if l.startsWith "trap " then handleTrap l
   else if l.startsWith "port " then handlePort l
